@@ -5,9 +5,12 @@
 package main
 
 import (
+	"bufio"
 	"encoding/json"
+	"flag"
 	"fmt"
 	"os"
+	"os/exec"
 	"path/filepath"
 	"sort"
 	"strings"
@@ -77,6 +80,7 @@ type instance struct {
 	acquired  int
 	closing   map[string]int // path -> threads that are inside Close/unlock (may or may not still hold)
 	probes    int
+	pgen      int // P-mode: unlock / close events seen by the coordinator
 	shared    *lockedfile.Mutex
 }
 
@@ -153,6 +157,7 @@ func (in *instance) body() {
 	in.holders = map[string][]holder{}
 	in.closing = map[string]int{}
 	in.viol = ""
+	in.pgen = 0
 	in.maxShared, in.maxPaths, in.acquired = 0, 0, 0
 	for _, p := range []string{"p", "q"} {
 		os.WriteFile(filepath.Join(in.dir, p), []byte("x"), 0o666)
@@ -160,6 +165,10 @@ func (in *instance) body() {
 	in.shared = lockedfile.MutexAt(filepath.Join(in.dir, "p"))
 	for ti, prog := range in.sc.Threads {
 		ti, prog := ti+1, prog
+		if in.sc.pmode() {
+			sched.Go(fmt.Sprintf("P%d", ti), func() { in.proxy(ti, prog) })
+			continue
+		}
 		sched.Go(fmt.Sprintf("T%d", ti), func() {
 			for _, a := range prog {
 				in.one(ti, a)
@@ -168,9 +177,42 @@ func (in *instance) body() {
 	}
 }
 
-func (in *instance) one(th int, a acq) {
-	path := filepath.Join(in.dir, a.Path)
-	in.closing["acq:"+a.Path]++
+// monitor is what an acquisition reports to: the in-process overlap monitor, or
+// (P-mode) a pipe to the coordinating process.
+type monitor interface {
+	acquiring(path string, delta int)
+	register(th int, a acq)
+	criticalSection(a acq)
+	releasing(th int, a acq)
+	closed(th int, a acq)
+	fail(msg string)
+}
+
+func (in *instance) acquiring(path string, delta int) { in.closing["acq:"+path] += delta }
+func (in *instance) criticalSection(a acq) {
+	sched.Point(sched.Op{Kind: "critical-section", Obj: a.Path})
+}
+func (in *instance) releasing(th int, a acq) {
+	in.deregister(th, a)
+	in.closing[a.Path]++
+}
+func (in *instance) closed(th int, a acq) {
+	in.closing[a.Path]--
+	in.probeReleased(th, a)
+}
+func (in *instance) fail(msg string) {
+	if in.viol == "" {
+		in.viol = msg
+	}
+}
+
+func (in *instance) one(th int, a acq) { acquireOnce(in, in.dir, in.shared, th, a) }
+
+// acquireOnce performs one acquisition / critical section / release on the real
+// lockedfile package and reports to m.
+func acquireOnce(m monitor, dir string, shared *lockedfile.Mutex, th int, a acq) {
+	path := filepath.Join(dir, a.Path)
+	m.acquiring(a.Path, +1)
 	var f *lockedfile.File
 	var unlock func()
 	var err error
@@ -190,32 +232,28 @@ func (in *instance) one(th int, a acq) {
 	case "mutex":
 		unlock, err = lockedfile.MutexAt(path).Lock()
 	case "mutexShared":
-		unlock, err = in.shared.Lock()
+		unlock, err = shared.Lock()
 	}
-	in.closing["acq:"+a.Path]--
+	m.acquiring(a.Path, -1)
 	if err != nil {
-		if in.viol == "" {
-			in.viol = fmt.Sprintf("thread %d: %s failed: %v", th, a, err)
-		}
+		m.fail(fmt.Sprintf("thread %d: %s failed: %v", th, a, err))
 		return
 	}
-	in.register(th, a)
-	sched.Point(sched.Op{Kind: "critical-section", Obj: a.Path})
+	m.register(th, a)
+	m.criticalSection(a)
 	dup := -1
 	if a.Dup && f != nil {
 		dup, _ = syscall.Dup(int(f.Fd()))
 	}
-	in.deregister(th, a)
-	in.closing[a.Path]++
+	m.releasing(th, a)
 	if f != nil {
-		if cerr := f.Close(); cerr != nil && in.viol == "" {
-			in.viol = fmt.Sprintf("thread %d: Close of %s failed: %v", th, a, cerr)
+		if cerr := f.Close(); cerr != nil {
+			m.fail(fmt.Sprintf("thread %d: Close of %s failed: %v", th, a, cerr))
 		}
 	} else {
 		unlock()
 	}
-	in.closing[a.Path]--
-	in.probeReleased(th, a)
+	m.closed(th, a)
 	if dup >= 0 {
 		syscall.Close(dup)
 		vosBump()
@@ -227,6 +265,138 @@ func (in *instance) one(th int, a acq) {
 func vosBump() {
 	if f, err := vos.Open(os.DevNull); err == nil {
 		f.Close()
+	}
+}
+
+// ---------- P-mode: every holder is a separate OS process ----------
+
+const pmodeTag = " [one process per holder]"
+
+func (s scenario) pmode() bool { return strings.HasSuffix(s.Name, pmodeTag) }
+
+type pchildSpec struct {
+	Dir  string `json:"dir"`
+	Th   int    `json:"th"`
+	Prog []acq  `json:"prog"`
+}
+
+// remote is the child's side of the pipe protocol: one line to the coordinator,
+// then wait for "G".
+type remote struct {
+	out *bufio.Writer
+	in  *bufio.Reader
+}
+
+func (r *remote) send(format string, args ...any) {
+	fmt.Fprintf(r.out, format+"\n", args...)
+	r.out.Flush()
+	if _, err := r.in.ReadString('\n'); err != nil {
+		os.Exit(7)
+	}
+}
+
+func (r *remote) acquiring(path string, delta int) { r.send("Q %s %d", path, delta) }
+func (r *remote) register(th int, a acq)           { js, _ := json.Marshal(a); r.send("A %s", js) }
+func (r *remote) criticalSection(a acq)            { r.send("S %s", a.Path) }
+func (r *remote) releasing(th int, a acq)          { js, _ := json.Marshal(a); r.send("D %s", js) }
+func (r *remote) closed(th int, a acq)             { js, _ := json.Marshal(a); r.send("C %s", js) }
+func (r *remote) fail(msg string)                  { r.send("E %s", strings.ReplaceAll(msg, "\n", " ")) }
+
+func pchildMain(spec pchildSpec) {
+	r := &remote{out: bufio.NewWriter(os.Stdout), in: bufio.NewReader(os.Stdin)}
+	vos.Reset()
+	vos.Hook = func(op *vos.Op) vos.Verdict {
+		r.send("P %s %s", op.Kind, filepath.Base(op.Path))
+		return vos.Verdict{}
+	}
+	vos.FlockHook = func(fd int, how int) error {
+		mode := "SH"
+		if how&syscall.LOCK_EX != 0 {
+			mode = "EX"
+		}
+		r.send("P flock %s", mode)
+		for {
+			err := syscall.Flock(fd, how|syscall.LOCK_NB)
+			if err == nil {
+				return nil
+			}
+			if err != syscall.EWOULDBLOCK {
+				return err
+			}
+			r.send("B %s", mode)
+		}
+	}
+	for _, a := range spec.Prog {
+		acquireOnce(r, spec.Dir, nil, spec.Th, a)
+	}
+	fmt.Fprintln(r.out, "F")
+	r.out.Flush()
+}
+
+// proxy runs one holder as a child process and turns its messages into
+// scheduler calls of the coordinating process.
+func (in *instance) proxy(th int, prog []acq) {
+	spec, _ := json.Marshal(pchildSpec{in.dir, th, prog})
+	cmd := exec.Command(os.Args[0], "-pchild", string(spec))
+	stdin, _ := cmd.StdinPipe()
+	stdout, _ := cmd.StdoutPipe()
+	cmd.Stderr = os.Stderr
+	if err := cmd.Start(); err != nil {
+		kit.Harness("P-mode child: %v", err)
+	}
+	defer func() {
+		stdin.Close()
+		cmd.Wait()
+	}()
+	rd := bufio.NewReader(stdout)
+	pendingBump := false
+	for {
+		line, err := rd.ReadString('\n')
+		if err != nil {
+			in.fail(fmt.Sprintf("thread %d: child process ended unexpectedly: %v", th, err))
+			return
+		}
+		line = strings.TrimSuffix(line, "\n")
+		if pendingBump {
+			// the child's previous operation (an unlock or a close) has completed
+			in.pgen++
+			pendingBump = false
+		}
+		kind, rest, _ := strings.Cut(line, " ")
+		switch kind {
+		case "F":
+			return
+		case "P":
+			k, obj, _ := strings.Cut(rest, " ")
+			sched.Point(sched.Op{Kind: k, Obj: obj})
+			if k == "funlock" || k == "close" {
+				pendingBump = true
+			}
+		case "B":
+			gen := in.pgen
+			sched.Block(sched.Op{Kind: "flock-wait", Obj: rest}, func() bool { return in.pgen != gen })
+		case "Q":
+			var path string
+			var d int
+			fmt.Sscan(rest, &path, &d)
+			in.acquiring(path, d)
+		case "A", "D", "C":
+			var a acq
+			json.Unmarshal([]byte(rest), &a)
+			switch kind {
+			case "A":
+				in.register(th, a)
+			case "D":
+				in.releasing(th, a)
+			default:
+				in.closed(th, a)
+			}
+		case "S":
+			sched.Point(sched.Op{Kind: "critical-section", Obj: rest})
+		case "E":
+			in.fail(rest)
+		}
+		fmt.Fprintln(stdin, "G")
 	}
 }
 
@@ -395,11 +565,36 @@ func scenarios(th bool) []scenario {
 		{"W||W||R", [][]acq{{a("create", "p")}, {a("wronly", "p")}, {a("open", "p")}}, b3, false},
 		{"M||M||M", [][]acq{{a("mutex", "p")}, {a("mutexShared", "p")}, {a("mutexShared", "p")}}, b3, false},
 	}
-	return scs
+	// P-mode: the same holders as separate OS processes (no shared *Mutex value there)
+	pb := 2
+	if th {
+		pb = -1
+	}
+	var ps []scenario
+	for _, sc := range scs {
+		if len(sc.Threads) != 2 || sc.EINTR || strings.Contains(sc.Name, "shared") {
+			continue
+		}
+		if !th && !(sc.Name == "W||W" || sc.Name == "W||R" || sc.Name == "R||R" || sc.Name == "M||M two values" || sc.Name == "wronly||R" || sc.Name == "W+dup||W" || sc.Name == "create||R" || sc.Name == "M||R") {
+			continue
+		}
+		ps = append(ps, scenario{sc.Name + pmodeTag, sc.Threads, pb, false})
+	}
+	return append(scs, ps...)
 }
+
+var pchildFlag = flag.String("pchild", "", "internal: run one holder as a P-mode child process")
 
 func main() {
 	r := kit.Start("C06", "model_checking")
+	if *pchildFlag != "" {
+		var spec pchildSpec
+		if err := json.Unmarshal([]byte(*pchildFlag), &spec); err != nil {
+			os.Exit(8)
+		}
+		pchildMain(spec)
+		return
+	}
 	root, err := os.MkdirTemp(os.Getenv("VERIF_SCRATCH"), "c06")
 	if err != nil {
 		kit.Harness("mkdtemp: %v", err)
@@ -428,6 +623,7 @@ func main() {
 	scs := scenarios(r.Thorough())
 	var tot shardResult
 	var per []string
+	var pmodeExecs int64
 	r.Sharded(len(scs), func(job int) any {
 		res := explore(r, root, scs[job])
 		return res
@@ -440,6 +636,9 @@ func main() {
 			kit.Harness("nondeterministic replay in scenario %s", scs[job])
 		}
 		tot.Executions += sr.Executions
+		if scs[job].pmode() {
+			pmodeExecs += sr.Executions
+		}
 		tot.Steps += sr.Steps
 		tot.Capped = tot.Capped || sr.Capped
 		if sr.MaxDepth > tot.MaxDepth {
@@ -461,11 +660,12 @@ func main() {
 	r.Set("transitions", tot.Steps)
 	r.Set("traces_validated_against_impl", tot.Executions)
 	r.Set("executions", tot.Executions)
+	r.Set("executions_with_one_os_process_per_holder", pmodeExecs)
 	r.Set("scenarios", per)
 	r.Set("max_decisions_in_one_execution", tot.MaxDepth)
 	r.Set("exhaustive", !tot.Capped && !r.Capped())
 	r.Set("explanation", "stateless exploration (no state keys: the kernel's lock table is part of the state): every schedule of the listed holders within the preemption bound is executed on the real lockedfile/filelock code against the real flock(2); states is reported as the number of scheduling steps visited (= transitions)")
-	r.Assume("threads with private descriptors stand for processes: flock locks belong to the open file description, so two descriptors in one process conflict exactly like two processes (probed when designing); cross-process replay (P-mode) is not built")
+	r.Assume("in most scenarios threads with private descriptors stand for processes (flock locks belong to the open file description); the scenarios tagged [one process per holder] re-explore the two-holder cases with every holder in its own OS process, driven over pipes by the same scheduler (P-mode), which binds that assumption to the kernel")
 	r.Assume("scheduling points at every open/flock/unlock/truncate/stat/close of the instrumented packages; a busy flock disables the thread until some unlock or close happened, then the kernel is asked again")
 	r.Finish()
 }
